@@ -143,6 +143,7 @@ def gen(rng, tier, i):
             if rng.random() < 0.3: p.cycle(tick())
         p.idle(len(items) + 8)
         p.opt('c13_stream', stream.hex())
+        p.meta['no_shrink'] = True      # one buffered command is served per cycle: without the idle cycles nothing can be delivered
         return p
     p.cfg('Port', '4000:' + kind)
     if cls == 'hostile':
